@@ -118,7 +118,7 @@ func min(a, b int) int {
 
 func TestC18_Syntax(t *testing.T) {
 	var rc TextCase
-	if loadReplay(t, "C18", &rc) {
+	if loadReplay(t, "C18", &rc, "syntax") {
 		if msg, _ := c18Syntax(&rc); msg != "" {
 			t.Fatalf("VERIF-FAIL property=C18 sub=syntax replay=%s :: %s", replayFile(), msg)
 		}
@@ -252,10 +252,7 @@ func c18Field(c *ExecCase) (msg string, nErrors int, hasIndex bool) {
 
 func TestC18_Field(t *testing.T) {
 	var rc ExecCase
-	if loadReplay(t, "C18", &rc) {
-		if rc.Schema == nil {
-			t.Skip()
-		}
+	if loadReplay(t, "C18", &rc, "field") {
 		if msg, _, _ := c18Field(&rc); msg != "" {
 			t.Fatalf("VERIF-FAIL property=C18 sub=field replay=%s :: %s", replayFile(), msg)
 		}
@@ -280,6 +277,86 @@ func TestC18_Field(t *testing.T) {
 		})
 		if msg != "" {
 			violation(rt, "C18", "field", c, "%s", msg)
+		}
+	})
+}
+
+// ---------------------------------------------------------------------------------------------
+// validation errors: every location is the start of a node the violated rule may blame
+
+func c18Validation(c *ValCase) (msg string, nLoc int) {
+	pr := model.Print(c.Doc, c.Layout)
+	c.Text = pr.Text
+	b, err := build.New(c.Schema, &ref.World{S: c.Schema}, build.Options{})
+	if err != nil {
+		return "HARNESS: " + err.Error(), 0
+	}
+	doc, perr := parseText(pr.Text)
+	if perr != nil {
+		return "HARNESS: " + perr.Error(), 0
+	}
+	want := ref.Validate(c.Schema, c.Doc)
+	unspec := unspecifiedRules(c)
+	for i, name := range ref.RuleNames {
+		if _, skip := unspec[name]; skip || len(want[name]) == 0 {
+			continue
+		}
+		vr := graphql.ValidateDocument(&b.Schema, doc, []graphql.ValidationRuleFn{graphql.SpecifiedRules[i]})
+		var nodes []interface{}
+		for _, v := range want[name] {
+			nodes = append(nodes, v.Nodes...)
+		}
+		okPos := posSet(pr, nodes)
+		for _, e := range vr.Errors {
+			for _, l := range e.Locations {
+				nLoc++
+				if l.Line < 1 || l.Column < 1 {
+					return fmt.Sprintf("rule %s: location %d:%d is not 1-based\n  document: %q", name, l.Line, l.Column, pr.Text), nLoc
+				}
+				if _, _, ok := offsetsOf(pr.Text, l.Line, l.Column); !ok {
+					return fmt.Sprintf("rule %s: location %d:%d is outside the text\n  document: %q", name, l.Line, l.Column, pr.Text), nLoc
+				}
+				if !okPos[fmt.Sprintf("%d:%d", l.Line, l.Column)] {
+					var okl []string
+					for k := range okPos {
+						okl = append(okl, k)
+					}
+					return fmt.Sprintf("rule %s: error %q located at %d:%d, which is not the start of a node this violation may be blamed on (acceptable: %v; %s)\n  document: %q",
+						name, oneLine(e.Message), l.Line, l.Column, okl, want[name][0].Msg, pr.Text), nLoc
+				}
+			}
+		}
+	}
+	return "", nLoc
+}
+
+func TestC18_Validation(t *testing.T) {
+	var rc ValCase
+	if loadReplay(t, "C18", &rc, "validation") {
+		if msg, _ := c18Validation(&rc); msg != "" {
+			t.Fatalf("VERIF-FAIL property=C18 sub=validation replay=%s :: %s", replayFile(), msg)
+		}
+		return
+	}
+	nOps := gen.NumInjectionOperators()
+	rapid.Check(t, func(rt *rapid.T) {
+		s := gen.Schema(rt, gen.SchemaOpts{Mutation: true, Directives: true})
+		d, _, _ := gen.Doc(rt, s, gen.DocOpts{Budget: 20})
+		c := &ValCase{Schema: s, Doc: d, Layout: &model.Layout{Seps: rapid.SliceOfN(rapid.IntRange(0, model.NumASCIISeparators-1), 1, 7).Draw(rt, "seps")}}
+		op := (rapid.IntRange(0, nOps-1).Draw(rt, "operator")*7919 + gen.Uniform(rt, 256, "opMix")) % nOps
+		if nd, inj, ok := gen.InjectViolation(rt, s, c.Doc, op); ok {
+			c.Doc = nd
+			c.Operators = append(c.Operators, inj.Operator)
+		}
+		msg, nLoc := c18Validation(c)
+		if nLoc > 0 {
+			stats.R.Class("validation_errors_located")
+		}
+		stats.R.Case(caseKey(c), nLoc > 0 && strings.ContainsAny(c.Text, "\r\n"), func() interface{} {
+			return map[string]interface{}{"document": c.Text, "operators": c.Operators}
+		})
+		if msg != "" {
+			violation(rt, "C18", "validation", c, "%s\n  injected: %v", msg, c.Operators)
 		}
 	})
 }
